@@ -8,7 +8,7 @@ from proto import T
 
 RULE = ('histories of add/get/exists/is_prefix/items on a Trie (names of 0-4 words from a pool with shared prefixes/suffixes, '
         'parentheses, case and blank variants, empty/blank/non-text names, re-insertion), make_automaton, add after it, then '
-        'iter over 1-3 texts; compared: every answer with the model, the fail links with the BFS recurrence of the model, and '
+        'iter over 1-3 texts with items() again after scans; compared: every answer with the model, the fail links with the BFS recurrence of the model, and '
         '(Spec, in Lean) the set of reported (start, end, value) with the brute-force occurrences; non-trivial = at least two '
         'stored names sharing a word; distinct by canonical history')
 ASSUMPTIONS = ['look-ups are compared before finalisation only (observation O1 in DESIGN.md)',
@@ -85,6 +85,8 @@ class Prop(BaseProp):
             n = rng.randint(0, 8)
             ws = [rng.choice(pool + ['zz']) for _ in range(n)]
             ops.append(['iter', name_text(rng, ws), rng.random() < 0.5])
+            if rng.random() < 0.5:
+                ops.append(['items'])          # enumeration after scanning: still exactly the stored names
         return {'ops': ops}
 
     def eval_case(self, drv, case):
@@ -122,7 +124,10 @@ class Prop(BaseProp):
                 impl_out.append(int(trie.is_prefix(op[1])))
                 mreq.append([T('prefix'), op[1]])
             elif k == 'items':
-                impl_out.append(sorted([[a, b] for a, b in trie.items()]))
+                try:
+                    impl_out.append(sorted([[a, b] for a, b in trie.items()]))
+                except RecursionError:
+                    impl_out.append([T('other'), 'RecursionError'])
                 mreq.append([T('items')])
             elif k == 'make':
                 trie.make_automaton()
